@@ -119,7 +119,7 @@ def c37_runs(tier):
     # concurrent growth: T0 and T1 one grow_by each, every multiset of amounts, every buffer size
     for bs in (1, 2, 4):
         rd = 1 if (bs == 2 or not q) else 0
-        runs.append(McRun(B, 'arena', dict(bs=bs, pre=1, g0=ks, g1=ks, sym=1, rd=rd, rr=1 if q else 2), bound=2, budget=90 if q else 300))
+        runs.append(McRun(B, 'arena', dict(bs=bs, pre=1, g0=ks, g1=ks, sym=1, rd=rd, rr=1 if q else 2), bound=2, budget=90 if q else 600))
     # several calls per thread, three growers
     more = [dict(bs=1, pre=1, g0='1.2', g1='2.1'), dict(bs=2, pre=1, g0='3', g1='2.1', rd=1, rr=1), dict(bs=1, pre=0, g0='2', g1='3', g2='1')]
     if not q:
@@ -129,13 +129,13 @@ def c37_runs(tier):
             runs.append(McRun(B, 'arena', dict(bs=bs, pre=1, g0=ks, g1=ks, sym=1), bound=3, budget=300))
     for p in more:
         runs.append(McRun(B, 'arena', p, bound=2, budget=90 if q else 200))
-    runs.append(McRun(B, 'arena', dict(bs=1, pre=1, g0=2, g1=3, rd=1), bound=1 if q else 2, mode='tsan', budget=90))
-    runs.append(McRun(B, 'arena', dict(bs=2, pre=1, g0=3, g1=2, rd=1), bound=1 if q else 2, mode='asan', budget=90))
+    runs.append(McRun(B, 'arena', dict(bs=1, pre=1, g0=2, g1=3, rd=1), bound=1 if q else 2, mode='tsan', budget=90 if q else 400))
+    runs.append(McRun(B, 'arena', dict(bs=2, pre=1, g0=3, g1=2, rd=1), bound=1 if q else 2, mode='asan', budget=90 if q else 400))
     runs.sort(key=lambda r: r.mode == 'plain')
     return runs
 
 
-reg('C37', level='model_checking', runs=c37_runs, quick_budget_s=400, thorough_budget_s=1500,
+reg('C37', level='model_checking', runs=c37_runs, quick_budget_s=400, thorough_budget_s=1800,
     technique='stateless model checking of the real ConcurrentObjectArena::grow_by (CAS loop, locked buffer allocation, pointer-array regrowth) plus exhaustive sequential enumeration of copies/moves/swaps under ASan',
     level_text='Concurrent: buffer sizes 1/2/4 (1 is the minimum), T0 and T1 each grow_by(k), every pair k in {1,2,3,5}, a third thread holding &arena[0] and re-reading the elements that existed before; multi-call and three-grower shapes; every interleaving with <=2 deviations (3 for the two-grower pairs in thorough). Oracle: every returned range inside [0,size()), ranges pairwise disjoint and tiling [0,size()), every element of a returned range default-constructed when grow_by returns and still owned by its grower at the end (no re-construction), &arena[0] and the old elements unchanged, capacity()/numBuffers()/getBufferSize() consistent. Sequential: arenas grown to 1..6 internal buffers (every fill of the last buffer, one-shot and element-wise), then copy-construct, copy-assign, move-construct, move-assign, swap; size, geometry and every element compared, the result grown across a buffer boundary, deep-copy independence; plain and ASan+LSan builds.',
     level_note='SC interleavings; TSan leg on one concurrent shape, ASan legs on one concurrent shape and on the whole sequential enumeration.',
